@@ -241,7 +241,7 @@ void COTmrUnlock(void) {
   if (g_sim->lock_depth < 0) g_sim->c.fail("lock-balance", "COTmrUnlock without COTmrLock");
   if (g_sim->lock_depth == 0 && g_sim->preempt) g_sim->preempt(false);
 }
-void CONmtModeChange(CO_NMT *nmt, CO_MODE mode) { (void)nmt; push(EV_MODE, (uint32_t)mode, 0); }
+void CONmtModeChange(CO_NMT *nmt, CO_MODE mode) { (void)nmt; push(EV_MODE, (uint32_t)mode, 0); if (g_sim && g_sim->mode_change_hook) g_sim->mode_change_hook((int)mode); }
 void CONmtResetRequest(CO_NMT *nmt, CO_NMT_RESET reset) { (void)nmt; push(EV_RESETREQ, (uint32_t)reset, 0); }
 void CONmtHbConsEvent(CO_NMT *nmt, uint8_t nodeId) { (void)nmt; push(EV_HBEVENT, nodeId, 0); if (g_sim && g_sim->hb_event_hook) g_sim->hb_event_hook(nodeId); }
 void CONmtHbConsChange(CO_NMT *nmt, uint8_t nodeId, CO_MODE mode) { (void)nmt; push(EV_HBCHANGE, nodeId, (uint32_t)mode); }
